@@ -723,14 +723,39 @@ func lowerByte(b *Term) *Term {
 // sEqualFoldConst models strings.EqualFold(s, c) for a constant c without 'k','s' (whose
 // fold orbits contain non-ASCII runes).
 func (st *State) sEqualFoldConst(s *Str, c string) (*Term, bool) {
+	ks := false
 	for i := 0; i < len(c); i++ {
 		ch := c[i] | 0x20
-		if c[i] >= 0x80 || ch == 'k' || ch == 's' {
+		if c[i] >= 0x80 {
 			return nil, false
+		}
+		if ch == 'k' || ch == 's' {
+			ks = true
 		}
 	}
 	if cs, ok := s.Const(); ok {
 		return B(strings.EqualFold(cs, c)), true
+	}
+	if ks {
+		// 'k' and 's' also fold to the Kelvin sign and the long s: exact (byte-wise) for an all-ASCII
+		// argument, an uninterpreted predicate of the argument otherwise
+		f := st.flat(s)
+		if len(c) > f.cap {
+			uf, _ := st.ufStrings("equalFold:"+c, s, emptyStr)
+			return And(Not(st.sAllBytes(s, func(b *Term) *Term { return Lt(b, I(128)) })), uf), true
+		}
+		t := []*Term{Eq(f.n, I(int64(len(c))))}
+		for i := 0; i < len(c); i++ {
+			by := pieceByte(f, I(int64(i)))
+			ch := c[i]
+			if ch >= 'a' && ch <= 'z' || ch >= 'A' && ch <= 'Z' {
+				t = append(t, Or(Eq(by, I(int64(ch|0x20))), Eq(by, I(int64(ch&^0x20)))))
+			} else {
+				t = append(t, Eq(by, I(int64(ch))))
+			}
+		}
+		uf, _ := st.ufStrings("equalFold:"+c, s, emptyStr)
+		return Ite(st.sAllBytes(s, func(b *Term) *Term { return Lt(b, I(128)) }), And(t...), uf), true
 	}
 	f := st.flat(s)
 	if len(c) > f.cap {
